@@ -22,7 +22,7 @@ def handle (tbl : CharTable) (target : String) (f : List String) (impl : String)
         else if target == "ed07" then firstFail [oracleC17 o, oracleC07 cfg.hist cfg.hasCompleter (!cfg.listCompletion) o]
         else if target == "ed08" then firstFail [oracleC17 o, oracleC08 cfg.hist o]
         else if target == "ed06" then firstFail [oracleC17 o, oracleC06 o]
-        else if target == "ed05" then firstFail [oracleC17 o, oracleC05 tbl.alnum cfg.hasCompleter (!cfg.hist.isEmpty) o]
+        else if target == "ed05" then firstFail [oracleC17 o, oracleC05 cfg.hasCompleter (!cfg.hist.isEmpty) o]
         else if target == "ed14" then firstFail [oracleC17 o, oracleC14 cfg.completer (!cfg.listCompletion) o]
         else none
       pure (model, verdictStr v)
